@@ -6,6 +6,9 @@ import (
 	"encoding/json"
 	"fmt"
 	"io"
+	"os"
+	"os/exec"
+	"path/filepath"
 	"runtime"
 	"sort"
 	"strings"
@@ -50,7 +53,7 @@ type C12Op struct {
 type C12Case struct {
 	Seed     uint64  `json:"seed"`
 	Full     bool    `json:"full"`
-	Rows     int     `json:"rows"` // -1 library default (63)
+	Rows     int     `json:"rows"`           // -1 library default (63)
 	Boot     bool    `json:"boot,omitempty"` // the shared instance starts empty; writer step 0 is Read(snapshot of the setup history)
 	Setup    []C12Op `json:"setup"`
 	Writer   []C12Op `json:"writer"`
@@ -604,22 +607,23 @@ type c12HistOp struct {
 }
 
 type c12Exec struct {
-	c     *C12Case
-	plan  *c12Plan
-	s     *sched
-	m     *u.MapPollard
-	hist  []*c12HistOp
-	open  map[int]*c12HistOp // task id -> op in progress
-	viol  []Violation
-	stats *Stats
-	log   []string
-	trace bool
-	sum   uint64
-	abort int32
+	c         *C12Case
+	plan      *c12Plan
+	s         *sched
+	m         *u.MapPollard
+	hist      []*c12HistOp
+	open      map[int]*c12HistOp // task id -> op in progress
+	viol      []Violation
+	stats     *Stats
+	log       []string
+	trace     bool
+	sum       uint64
+	abort     int32
 	picksUsed []int
 	results   [][]string
 }
 
+//go:norace
 func (e *c12Exec) logf(format string, a ...interface{}) {
 	s := fmt.Sprintf(format, a...)
 	for i := 0; i < len(s); i++ {
@@ -631,6 +635,7 @@ func (e *c12Exec) logf(format string, a ...interface{}) {
 	}
 }
 
+//go:norace
 func (e *c12Exec) violate(class, detail string) {
 	for _, v := range e.viol {
 		if v.Class == class {
@@ -641,6 +646,7 @@ func (e *c12Exec) violate(class, detail string) {
 	e.logf("VIOLATION C12 class=%s %s", class, detail)
 }
 
+//go:norace
 func (e *c12Exec) parkDecision(t *schedTask, idx int) bool {
 	if e.c.Density >= 100 {
 		return true
@@ -648,6 +654,7 @@ func (e *c12Exec) parkDecision(t *schedTask, idx int) bool {
 	return int(mix64(e.c.ParkSeed^uint64(t.id)<<40^uint64(t.opIdx)<<20^uint64(idx))%100) < e.c.Density
 }
 
+//go:norace
 func (e *c12Exec) maybeExit() {
 	if atomic.LoadInt32(&e.abort) != 0 {
 		runtime.Goexit() // deferred unlocks of the library run
@@ -655,6 +662,8 @@ func (e *c12Exec) maybeExit() {
 }
 
 // access: called by the storage seam on the calling task's goroutine.
+//
+//go:norace
 func (e *c12Exec) access(mapID int, write bool) {
 	t := e.s.current()
 	if t == nil || !t.inCall {
@@ -669,7 +678,7 @@ func (e *c12Exec) access(mapID int, write bool) {
 	t.pending = nil
 	// mutual exclusion oracle: executed while this task is the only one running
 	for _, y := range e.s.tasks {
-		if y == t || !y.inCall || atomic.LoadInt32(&y.status) != stParked || y.parkKind == "precall" {
+		if y == t || !y.inCall || loadStatus(y) != stParked || y.parkKind == "precall" {
 			continue
 		}
 		yPend := y.pending != nil && y.pending.mapID == mapID
@@ -691,6 +700,8 @@ func (e *c12Exec) access(mapID int, write bool) {
 
 // lockPoint: called through the verif-tag hook right after the library took
 // its lock (read or write) in an exported method.
+//
+//go:norace
 func (e *c12Exec) lockPoint(site string) {
 	t := e.s.current()
 	if t == nil || !t.inCall {
@@ -706,6 +717,7 @@ func (e *c12Exec) lockPoint(site string) {
 	}
 }
 
+//go:norace
 func (e *c12Exec) ioPoint() {
 	t := e.s.current()
 	if t == nil || !t.inCall {
@@ -717,6 +729,7 @@ func (e *c12Exec) ioPoint() {
 	}
 }
 
+//go:norace
 func (e *c12Exec) kindOf(t *schedTask) string {
 	if t.id == 0 {
 		i := t.opIdx
@@ -752,6 +765,7 @@ func replayPicker(picks []int) c12Picker {
 
 const c12MaxSteps = 6000
 
+//go:norace
 func runC12(c *C12Case, plan *c12Plan, pick c12Picker, trace bool) *c12Exec {
 	e := &c12Exec{c: c, plan: plan, stats: NewStats(), trace: trace, open: map[int]*c12HistOp{}}
 	e.s = &sched{}
@@ -765,35 +779,11 @@ func runC12(c *C12Case, plan *c12Plan, pick c12Picker, trace bool) *c12Exec {
 	wops := plan.wops[nSetup:]
 	e.results = make([][]string, 1+len(c.Readers))
 	e.results[0] = make([]string, len(wops))
-	e.s.addTask("writer", func(t *schedTask) {
-		for i := range wops {
-			t.opIdx = i
-			t.park("precall")
-			e.maybeExit()
-			t.callAccesses, t.readMaps, t.wroteMaps, t.blockedSeen, t.pending, t.lockDepth = 0, [2]bool{}, [2]bool{}, false, nil, 0
-			t.inCall = true
-			r := execWriter(e.m, wops[i], e)
-			t.inCall = false
-			e.results[0][i] = r
-			t.opsDone = i + 1
-		}
-	})
+	e.s.addTask("writer", func(t *schedTask) { e.writerBody(t, wops) })
 	for ri, qs := range c.Readers {
 		ri, qs := ri, qs
 		e.results[ri+1] = make([]string, len(qs))
-		e.s.addTask(fmt.Sprintf("reader%d", ri+1), func(t *schedTask) {
-			for i, qi := range qs {
-				t.opIdx = i
-				t.park("precall")
-				e.maybeExit()
-				t.callAccesses, t.readMaps, t.wroteMaps, t.blockedSeen, t.pending, t.lockDepth = 0, [2]bool{}, [2]bool{}, false, nil, 0
-				t.inCall = true
-				r := execQuery(e.m, plan.queries[qi%len(plan.queries)], e)
-				t.inCall = false
-				e.results[ri+1][i] = r
-				t.opsDone = i + 1
-			}
-		})
+		e.s.addTask(fmt.Sprintf("reader%d", ri+1), func(t *schedTask) { e.readerBody(t, ri, qs) })
 	}
 	e.s.start()
 	done := make([]int, len(e.s.tasks))
@@ -853,7 +843,7 @@ func runC12(c *C12Case, plan *c12Plan, pick c12Picker, trace bool) *c12Exec {
 			if t.id > 0 {
 				op.q = c.Readers[t.id-1][t.opIdx] % len(plan.queries)
 				w := e.s.tasks[0]
-				if w.inCall && w.callAccesses > 0 && atomic.LoadInt32(&w.status) == stParked {
+				if w.inCall && w.callAccesses > 0 && loadStatus(w) == stParked {
 					op.insection = true
 					e.stats.Faults["query_started_while_writer_in_section"]++
 					e.stats.Reach["insec:"+e.kindOf(w)+"x"+e.kindOf(t)]++
@@ -874,9 +864,45 @@ func runC12(c *C12Case, plan *c12Plan, pick c12Picker, trace bool) *c12Exec {
 	return e
 }
 
+// Task bodies.  go:norace: the bookkeeping fields they share with the scheduler
+// are deliberately unsynchronised in the race build (sync_race.go); the library
+// calls they make are instrumented as usual.
+
+//go:norace
+func (e *c12Exec) writerBody(t *schedTask, wops []c12Concrete) {
+	for i := range wops {
+		t.opIdx = i
+		t.park("precall")
+		e.maybeExit()
+		t.callAccesses, t.readMaps, t.wroteMaps, t.blockedSeen, t.pending, t.lockDepth = 0, [2]bool{}, [2]bool{}, false, nil, 0
+		t.inCall = true
+		r := execWriter(e.m, wops[i], e)
+		t.inCall = false
+		e.results[0][i] = r
+		t.opsDone = i + 1
+	}
+}
+
+//go:norace
+func (e *c12Exec) readerBody(t *schedTask, ri int, qs []int) {
+	for i, qi := range qs {
+		t.opIdx = i
+		t.park("precall")
+		e.maybeExit()
+		t.callAccesses, t.readMaps, t.wroteMaps, t.blockedSeen, t.pending, t.lockDepth = 0, [2]bool{}, [2]bool{}, false, nil, 0
+		t.inCall = true
+		r := execQuery(e.m, e.plan.queries[qi%len(e.plan.queries)], e)
+		t.inCall = false
+		e.results[ri+1][i] = r
+		t.opsDone = i + 1
+	}
+}
+
 // shutdown lets every parked task unwind (running the library's deferred
 // unlocks) so that no goroutine or lock outlives the case, unless the case
 // ended in a real deadlock or hang.
+//
+//go:norace
 func (e *c12Exec) shutdown() {
 	atomic.StoreInt32(&e.abort, 1)
 	for i := 0; i < 10000; i++ {
@@ -904,6 +930,7 @@ type c12In struct {
 	idx    int
 }
 
+//go:norace
 func (e *c12Exec) checkHistory() {
 	if len(e.viol) > 0 {
 		return
@@ -1025,9 +1052,22 @@ func clip(s string, n int) string {
 // ---------------------------------------------------------------------------
 // engine
 
-type c12Engine struct{}
+type c12Engine struct{ race bool }
 
-func (e *c12Engine) Name() string     { return "sched" }
+func (e *c12Engine) Name() string {
+	if e.race {
+		return "sched-race"
+	}
+	return "sched"
+}
+
+// WorkerExe: the race variant runs in the binary built with -race.
+func (e *c12Engine) WorkerExe() string {
+	if e.race {
+		return "utxosim-race"
+	}
+	return ""
+}
 func (e *c12Engine) Property() string { return "C12" }
 func (e *c12Engine) Describe() (string, []string, []string) {
 	return "one case = one shared MapPollard (full or partial, seeded TotalRows, seeded pre-history), a writer script (Modify/Undo/Verify(remember)/Ingest/Prune/Read), 1-4 reader scripts drawn from a query pool, and a schedule (pick list) executed by the seeded cooperative scheduler over real goroutines; park points inside critical sections at storage-interface accesses and stream I/O; non-trivial = at least one query overlapped a writer step or a task was really blocked on the forest's lock; distinct = digest of the event log (calls, resumptions, returns with answers)",
@@ -1041,6 +1081,7 @@ func (e *c12Engine) Assumptions() []string {
 		"preemption happens only at park points: before each call, right after each lock acquisition (verif-tag hook), at every storage-interface access and stream I/O; not between arbitrary instructions",
 		"a goroutine whose runtime wait reason is sync.RWMutex.RLock / sync.RWMutex.Lock / sync.Mutex.Lock is blocked on the forest's lock (proved by a canary in every process before the first case)",
 		"hooks built in: " + fmt.Sprint(c12HooksBuilt),
+		"engine sched-race: the same cases in a binary built with the Go race detector; the hand-off between scheduler and tasks uses no operation the detector treats as synchronisation, so only the library's own lock orders the tasks; only reports whose two accesses are both made by library code count; proved per process by a canary (an unsynchronised pair handed off the same way must be reported); if that binary cannot be built the engine is skipped and the check says so",
 		"seeded search samples schedules; a clean batch is evidence, not proof",
 	}
 }
@@ -1053,10 +1094,10 @@ func (e *c12Engine) ExtraCoverage(s *Stats) map[string]interface{} {
 		}
 	}
 	return map[string]interface{}{
-		"scheduler_steps":                      s.Events,
-		"writer_steps_executed":                s.Applies,
+		"scheduler_steps":       s.Events,
+		"writer_steps_executed": s.Applies,
 		"distinct_writer_step_x_query_pairs_with_writer_suspended_in_section": pairs,
-		"history_stamps":                       s.SimTime,
+		"history_stamps": s.SimTime,
 	}
 }
 
@@ -1164,6 +1205,8 @@ func genC12(seed uint64) *C12Case {
 
 // strategyPicker: the seeded schedule generator.  Its choices are recorded in
 // the case (Picks), so a replay does not depend on it.
+//
+//go:norace
 func strategyPicker(c *C12Case, seed uint64) c12Picker {
 	r := SubRng(seed, "sched")
 	phase := 0
@@ -1246,7 +1289,12 @@ var c12CanaryOnce sync.Once
 var c12CanaryErr error
 
 func (e *c12Engine) Run(seed uint64, f *Findings) *CaseResult {
-	c12CanaryOnce.Do(func() { c12CanaryErr = schedCanary() })
+	c12CanaryOnce.Do(func() {
+		c12CanaryErr = schedCanary()
+		if c12CanaryErr == nil && e.race {
+			c12CanaryErr = raceCanary()
+		}
+	})
 	if c12CanaryErr != nil {
 		return &CaseResult{Stats: NewStats(), Panic: c12CanaryErr.Error()}
 	}
@@ -1261,6 +1309,9 @@ func (e *c12Engine) Run(seed uint64, f *Findings) *CaseResult {
 }
 
 func (e *c12Engine) finish(c *C12Case, ex *c12Exec, f *Findings) *CaseResult {
+	if raceEnabled {
+		ex.collectRaces()
+	}
 	ex.checkHistory()
 	st := ex.stats
 	for _, op := range ex.hist {
@@ -1299,6 +1350,11 @@ func (e *c12Engine) Replay(raw json.RawMessage, f *Findings, trace bool) (*CaseR
 	if err := schedCanary(); err != nil {
 		return nil, nil, err
 	}
+	if e.race {
+		if err := raceCanary(); err != nil {
+			return nil, nil, err
+		}
+	}
 	cr, log := e.runCase(&c, f, trace)
 	return cr, log, nil
 }
@@ -1306,6 +1362,12 @@ func (e *c12Engine) Replay(raw json.RawMessage, f *Findings, trace bool) (*CaseR
 func (e *c12Engine) fails(c *C12Case, class string, f *Findings) bool {
 	if hungWorker {
 		return false
+	}
+	if raceEnabled && strings.HasPrefix(class, "data-race") {
+		// the detector reports a given race once per process: every candidate
+		// needs a fresh process
+		_, ok := c12TryInChild(c, class, -1)
+		return ok
 	}
 	cr, _ := e.runCase(c, f, false)
 	for _, v := range cr.Violations {
@@ -1344,6 +1406,14 @@ func (e *c12Engine) Minimize(ci interface{}, class string, f *Findings, budget t
 		for i := 0; i < 12 && time.Now().Before(deadline) && !hungWorker; i++ {
 			c2 := c.clone()
 			c2.Strategy = []string{"insection-sweep", "uniform", "reader-holds", "writer-biased"}[i%4]
+			if raceEnabled && strings.HasPrefix(class, "data-race") {
+				if picks, ok := c12TryInChild(c2, class, i); ok {
+					c2.Picks = picks
+					best = c2
+					return true
+				}
+				continue
+			}
 			plan := buildPlan(c2)
 			if plan.trouble != "" {
 				return false
@@ -1459,4 +1529,80 @@ func (e *c12Engine) Minimize(ci interface{}, class string, f *Findings, budget t
 func init() {
 	// keep sort imported for future deterministic iteration helpers
 	_ = sort.Ints
+}
+
+// c12TryInChild runs one candidate in a fresh process of this binary
+// (subcommand c12try).  resched < 0: replay the candidate's own pick list;
+// otherwise generate a schedule with the candidate's strategy and that seed
+// index.  Returns the pick list used and whether the class was reproduced.
+func c12TryInChild(c *C12Case, class string, resched int) ([]int, bool) {
+	exe, err := os.Executable()
+	if err != nil {
+		return nil, false
+	}
+	dir, err := os.MkdirTemp("", "c12try-")
+	if err != nil {
+		return nil, false
+	}
+	defer os.RemoveAll(dir)
+	b, _ := json.Marshal(c)
+	file := filepath.Join(dir, "case.json")
+	if os.WriteFile(file, b, 0o644) != nil {
+		return nil, false
+	}
+	cmd := exec.Command(exe, "c12try", file, class, fmt.Sprint(resched))
+	cmd.Env = append(os.Environ(), "GORACE=log_path="+filepath.Join(dir, "race")+" halt_on_error=0 exitcode=0")
+	out, err := cmd.Output()
+	if err != nil {
+		return nil, false
+	}
+	var picks []int
+	if json.Unmarshal(bytes.TrimSpace(out), &picks) != nil {
+		return nil, false
+	}
+	return picks, true
+}
+
+// cmdC12Try: see c12TryInChild.  Exit 0 and the pick list on stdout if the
+// class was reproduced, exit 1 otherwise.
+func cmdC12Try(args []string) int {
+	if len(args) < 3 {
+		return 2
+	}
+	b, err := os.ReadFile(args[0])
+	if err != nil {
+		return 2
+	}
+	var c C12Case
+	if json.Unmarshal(b, &c) != nil {
+		return 2
+	}
+	class := args[1]
+	resched := -1
+	fmt.Sscan(args[2], &resched)
+	e := &c12Engine{race: raceEnabled}
+	if schedCanary() != nil || (raceEnabled && raceCanary() != nil) {
+		return 2
+	}
+	f := loadFindings()
+	plan := buildPlan(&c)
+	if plan.trouble != "" {
+		return 1
+	}
+	var ex *c12Exec
+	if resched < 0 {
+		ex = runC12(&c, plan, replayPicker(c.Picks), false)
+	} else {
+		ex = runC12(&c, plan, strategyPicker(&c, mix64(c.Seed^uint64(resched)*0x51f1)), false)
+		c.Picks = ex.picksUsed
+	}
+	cr := e.finish(&c, ex, f)
+	for _, v := range cr.Violations {
+		if v.Class == class {
+			out, _ := json.Marshal(c.Picks)
+			fmt.Println(string(out))
+			return 0
+		}
+	}
+	return 1
 }
